@@ -295,6 +295,12 @@ def eval_cli(ki, ko, si, so, in_m, out_m, hs):
     with W.Session(w) as s:
         r1 = s.gwf(["status"])
         st = W.parse_status(r1.stdout).get("T") if r1.exit_code == 0 else f"exit{r1.exit_code}:{r1.err_summary()}"
+        # the decision must not depend on having asked before: a dry run in between changes nothing
+        s.gwf(["run", "-d"])
+        r1b = s.gwf(["status"])
+        st_b = W.parse_status(r1b.stdout).get("T") if r1b.exit_code == 0 else f"exit{r1b.exit_code}"
+        if st_b != st:
+            st = f"{st} then {st_b} after a dry run"
         r2 = s.gwf(["run"])
         sub = [j["name"] for j in s.sim.journal_submits()] if r2.exit_code == 0 else f"exit{r2.exit_code}:{r2.err_summary()}"
     return (st, sub == ["T"] if isinstance(sub, list) else sub)
@@ -310,7 +316,7 @@ def cli_batch(acc, batch, ranks=3):
                     case = dict(kind="cli", ki=ki, ko=ko, si=si, so=so, in_m=in_m, out_m=out_m, hs=hs)
                     obs = eval_cli(ki, ko, si, so, in_m, out_m, hs)
                     acc.case(key=("cli", ki, ko, in_m, out_m, hs), outcome="cli" + str(obs), sample=case)
-                    acc.extra["cli_invocations"] += 2
+                    acc.extra["cli_invocations"] += 4
                     if obs != exp:
                         acc.violation(
                             sig=dict(kind="cli", ko=ko, so=so if ko == 0 else "*", exp=exp[0], obs=str(obs[0])[:40]),
